@@ -19,7 +19,8 @@ TraceDoubleOf(x) ==
 \* is the decimal x exactly a double?  integers below 10^15 are; otherwise the harness's table says
 ExactDouble(x) == (IsIntegral(x) /\ Magnitude(x) <= 15) \/ (\E i \in 1..Len(Dbl) : Dbl[i].x = x /\ Dbl[i].ex)
 
-Flag(kind, case, what) == PrintT(<<kind, case, what>>)
+\* one line per flag, whatever its length: a JSON array [kind, case, what] behind the word FLAG (TLC wraps long tuples, not strings)
+Flag(kind, case, what) == PrintT("FLAG " \o ToJson(<<kind, case, what>>))
 
 \* rows of an output: every row is followed by the separator
 RECURSIVE SplitFrom(_, _, _, _, _)
